@@ -1291,7 +1291,7 @@ META = {
                   TransferManager.read_cache, TransferManager.write_cache, TransferManager.load_data, TransferManager.store_data,
                   TransferManager.add, TransferManager.queue, TransferManager.pause, TransferManager.download,
                   TransferManager.remove, TransferManager._get_queued_transfers, TransferManager.on_transfer_state_changed,
-                  TransferManager.request_management_cycle, shelve.Shelf.__setitem__, shelve.Shelf.__getitem__,
+                  TransferManager.request_management_cycle, TransferManager.stop, shelve.Shelf.__setitem__, shelve.Shelf.__getitem__,
                   shelve.DbfilenameShelf.__init__],
     'stubs': ['dbm.open -> in-memory insertion-ordered table; key equality is a z3 query and forks (props/c17.py SymDbm)',
               'aioslsk.transfer.cache.hashlib -> injective uninterpreted function per algorithm over the hashed character '
@@ -1311,19 +1311,26 @@ META = {
     'discriminants': ['number of transfers', 'persisted state (10) x direction (2) per transfer',
                       'None-ness of local_path / place_in_queue / fail_reason / abort_reason / filesize / start_time / '
                       'complete_time, presence of a stray _offset', 'record format: current / written by an older version',
-                      'string lengths', 'operation sequence write / mutate i / remove i / add'],
+                      'string lengths', 'operation sequence write / mutate i / remove i / add',
+                      'state before and after a mutation (same state / moved)'],
     'bounds': {'quick': {'pair': 'user / path lengths 0..2 for both transfers (81 length combinations) x 4 direction pairs',
                          'single': '10 states x 2 directions x 32 None-ness shapes (the 4 bits the code branches on x the passive ones '
                                    'all-or-nothing) x current / legacy record; two restarts in a row',
                          'restart': 'n=0; n=2: 20 x 6 representative partners (current), 10 x 4 (legacy); n=8: every state present, '
                                     '10 rotations (+2 legacy), remote paths assumed pairwise different',
                          'sequence': '2 live transfers + 1 addable, 3 operations out of write / mutate i / remove i / add, fresh and '
-                                     'legacy start, name lengths (1,1) and the colliding shapes (2,1)/(1,2)',
+                                     'legacy start, start state QUEUED / FAILED / ABORTED / COMPLETE, a mutation = fresh symbolic '
+                                     'values in every persisted field and either the same state or a move (finalized -> other '
+                                     'finalized, QUEUED -> COMPLETE); name lengths (1,1) and the colliding shapes (2,1)/(1,2)',
+                         'rewrite': 'one transfer written twice by one process: 10 start states x 2 directions x 6 target states '
+                                    '(current), 3 finalized start states (record of an older version)',
                          'api': '4 scenarios through download()/add()/remove()/stop()/store_data()/load_data() x 2 name shapes'},
                'thorough': {'pair': 'lengths 0..3 (256 combinations) x 4 direction pairs', 'single': 'all 256 None-ness shapes',
                             'restart': 'n=2 all 400 pairs, current and legacy; n=3: 400 pairs x 10 representative third transfers; '
                                        'n=5 and n=8: 20 rotations x current / legacy',
-                            'sequence': '3 live + 1 addable with 3 operations; 2 live + 1 with 4 operations; colliding shapes with 4',
+                            'sequence': '2 live + 1 with 4 operations x 4 start states x both keep/move assignments; 3 live + 1 '
+                                        'with 3 operations; colliding shapes with 4 operations',
+                            'rewrite': '10 x 2 x 10 start/target states, current and legacy',
                             'api': 'as quick'}},
     'outside': ['names longer than the bound; more than 3 transfers whose names may alias each other (n=5/8 runs assume pairwise '
                 'different remote paths)',
@@ -1410,7 +1417,7 @@ def jobs(tier):
                             'requires': ['sequence_read']})
         k = 0
         for lens in ([[2, 1], [1, 2], [1, 1]], [[1, 2], [2, 1], [2, 1]]):
-            for dirs in ('DDD', 'DUD'):
+            for dirs in (('DDD',) if q else ('DDD', 'DUD')):
                 for first in ([None] if q else range(6)):
                     k += 1
                     out.append({'harness': 'sequence', 'fn': h_sequence,
